@@ -5,7 +5,8 @@ Line-protocol glue for C02.  One request = one complete case (a datatype tree an
 
   {"p":"C02","k":"case","dt":T,"v":V,"fmt":[[pos,bitsIn,bitsBack],..],
    "impl":{"exp":OJ,"node":OV,"client":OV,"cdt":T|null,"text":OT,"back":OV,"again":OT,
-           "cval":OV,"ctext":OT,"cback":OV,"cagain":OT,"sent":OJ,"cnode":OV}}
+           "cval":OV,"ctext":OT,"cback":OV,"cagain":OT,"sent":OJ,"cnode":OV,"vsent":OJ,"vnode":OV}}
+      (`cval` = the value of the cache entry `updateValue` made; `vsent` = what `setParameter(cval)` sent)
       OJ/OV/OT = {"ok": <JSON value / value / text>} | {"err": "<class>"} | null
   → {"wf":b,"valid":b,"canon":b,"complete":b,"model":{…same keys…},"judge":[failed clauses],"b64":b}
 
@@ -130,27 +131,50 @@ partial def completeB : DType Float → PVal Float → Bool
   | _, _ => true
 end
 
+/-- `Spec.C02.LimitsOnGrid`, executable (hypothesis of `client_cache_string_write`) -/
+partial def limitsB : DType Float → Bool
+  | .scaled scale min max _ _ =>
+    (match DType.snap scale min with | some lo => decide (SnapFix scale lo) | none => true) &&
+    (match DType.snap scale max with | some hi => decide (SnapFix scale hi) | none => true)
+  | .array e _ _ => limitsB e
+  | .tuple es => es.all limitsB
+  | .struct ms _ _ => ms.all (fun m => limitsB m.2)
+  | _ => true
+
+/-- the float leaf at `pos` prints as a text that reads back as `-0.0` (`'%.1f' % -0.04`): the recorded finding
+`neg-zero-text` (`Props.C02.text_form_changes_where_format_law_fails`) -/
+def readsNegZero (L : TextLib Float) (pos : List Nat) (x : Float) : Bool :=
+  match L.evalAtom (L.fmtFloat pos x) with
+  | some (.float z) => !FloatOps.isNaN z && !FloatOps.same (FloatOps.addZero z) z
+  | _ => false
+
 /-- the instances of `TextLib.Lawful.fmtDouble` / `fmtScaled` at the float leaves of `v` hold (a hypothesis of
-`text_roundtrip`, decided here so that a case outside it is counted and not judged) -/
-partial def fmtLawB (L : TextLib Float) : List Nat → DType Float → PVal Float → Bool
+`text_roundtrip`, decided here so that a case outside it is counted and not judged); `relaxed`: a leaf whose text
+reads back as `-0.0` passes as well -/
+partial def fmtLawB (L : TextLib Float) (relaxed : Bool) : List Nat → DType Float → PVal Float → Bool
   | pos, .double _ _ _ _, .float x =>
+    (relaxed && readsNegZero L pos x) ||
     (match L.evalAtom (L.fmtFloat pos x) with
-     | some w => (match doubleCall w with
-       | .ok y => L.fmtFloat pos y == L.fmtFloat pos x
-       | .error _ => false)
+     | some w => (match PVal.toFloat? w with
+       | some r => !FloatOps.isNaN r &&
+           L.fmtFloat pos (FloatOps.median3 (FloatOps.neg FloatOps.maxFinite) r FloatOps.maxFinite) == L.fmtFloat pos x
+       | none => false)
      | none => false)
   | pos, .scaled scale _ _ _ _, .float x =>
+    (relaxed && readsNegZero L pos x) ||
     (match L.evalAtom (L.fmtFloat pos x) with
-     | some w => (match scaledCall scale w with
-       | .ok y => L.fmtFloat pos y == L.fmtFloat pos x
-       | .error _ => false)
+     | some w => (match PVal.toFloat? w with
+       | some r => (match DType.snap scale r with
+         | some y => FloatOps.isFinite y && L.fmtFloat pos y == L.fmtFloat pos x && decide (SnapFix scale y)
+         | none => false)
+       | none => false)
      | none => false)
-  | pos, .array e _ _, .tuple vs => vs.all (fmtLawB L (pos ++ [0]) e)
-  | pos, .tuple es, .tuple vs => ((es.zip vs).zipIdx).all (fun ((t, v), i) => fmtLawB L (pos ++ [i]) t v)
+  | pos, .array e _ _, .tuple vs => vs.all (fmtLawB L relaxed (pos ++ [0]) e)
+  | pos, .tuple es, .tuple vs => ((es.zip vs).zipIdx).all (fun ((t, v), i) => fmtLawB L relaxed (pos ++ [i]) t v)
   | pos, .struct ms _ _, .dict fields =>
     fields.all (fun (k, v) =>
       match (ms.zipIdx).find? (fun (m, _) => m.1 == k) with
-      | some ((_, t), i) => fmtLawB L (pos ++ [i]) t v
+      | some ((_, t), i) => fmtLawB L relaxed (pos ++ [i]) t v
       | none => true)
   | _, _, _ => true
 
@@ -181,9 +205,12 @@ def handle (j : Json) : R Json := do
     let mback := bind (some mtext) (fun t => ofExcept (fromString L dt t))
     let magain := bind mback (fun v' => ofOption (toString L dt v'))
     -- the client: cache item from the update, its text, the string write
-    let mcval := mclient
+    let mitem := match cdt with
+      | some c => bind (some mexp) (fun jv => ofExcept (updateValue c jv))
+      | none => none
+    let mcval := bind mitem (fun item => .ok item.value)
     let mctext := match cdt with
-      | some c => bind mcval (fun cv => ofOption (cacheItemStr L c cv))
+      | some c => bind mitem (fun item => ofOption (item.str L c))
       | none => none
     let mcback := match cdt with
       | some c => bind mctext (fun t => ofExcept (fromString L c t))
@@ -195,15 +222,22 @@ def handle (j : Json) : R Json := do
       | some c => bind mctext (fun t => ofExcept (clientSetFromString L c t))
       | none => none
     let mcnode := bind msent (fun jv => ofExcept (importValue dt jv))
+    let mvsent := match cdt with
+      | some c => bind mcval (fun cv => ofExcept (clientSet c cv))
+      | none => none
+    let mvnode := bind mvsent (fun jv => ofExcept (importValue dt jv))
     -- ---- the implementation, judged ------------------------------------------------------
     let iexp ← io jvalOfJson "exp"; let inode ← io pvalOfJson "node"; let iclient ← io pvalOfJson "client"
     let itext ← io textOfJson "text"; let iback ← io pvalOfJson "back"; let iagain ← io textOfJson "again"
     let icval ← io pvalOfJson "cval"; let ictext ← io textOfJson "ctext"; let icback ← io pvalOfJson "cback"
     let icagain ← io textOfJson "cagain"; let isent ← io jvalOfJson "sent"; let icnode ← io pvalOfJson "cnode"
+    let ivsent ← io jvalOfJson "vsent"; let ivnode ← io pvalOfJson "vnode"
     let valid := validB dt v
     let canon := canonB v
     let complete := completeB dt v
-    let fmtlaw := fmtLawB L [] dt v
+    let fmtlaw := fmtLawB L false [] dt v
+    -- the law fails only at leaves whose text reads back as -0.0: judged, under the recorded finding's clause names
+    let negzero := !fmtlaw && fmtLawB L true [] dt v
     let cbuilt := match impl.getObjVal? "cdt" with
       | .ok x => (x.getObjVal? "err").toOption.isNone && !x.isNull
       | .error _ => false
@@ -212,32 +246,42 @@ def handle (j : Json) : R Json := do
       (match iexp with
        | some e => judgeWire dt v e inode cbuilt iclient
        | none => ["export:missing"]) ++
-      (if canon && complete && fmtlaw then
+      (if canon && complete && (fmtlaw || negzero) then
         (match itext with
-         | some t => judgeText v t iback iagain
+         | some t => (judgeText v t iback iagain).map (fun c => if negzero then c ++ ":neg-zero-text" else c)
          | none => ["text:missing"])
        else []) ++
       (match icval, ictext with
        | some (.ok cv), some t =>
-         (if canonB cv && (match cdt with | some c => fmtLawB L [] c cv | none => false) then
-            (judgeText cv t icback icagain).map ("client-" ++ ·) else []) ++
+         (let claw := match cdt with | some c => fmtLawB L false [] c cv | none => false
+          let cneg := !claw && (match cdt with | some c => fmtLawB L true [] c cv | none => false)
+          if canonB cv && (claw || cneg) then
+            (judgeText cv t icback icagain).map (fun c => "client-" ++ (if cneg then c ++ ":neg-zero-text" else c)) else []) ++
          (match icback, isent with
           | some b, some s => judgeClientWrite dt b s icnode
           | some (.ok _), none => ["cwrite:missing"]
-          | _, _ => [])
+          | _, _ => []) ++
+         (match ivsent with
+          | some s => (judgeClientWrite dt (.ok cv) s ivnode).map (fun c => "cset:" ++ (c.drop 7).toString)
+          | none => ["cset:missing"])
        | _, _ => [])
+    -- hypothesis `Valid cdt v` of `client_cache_string_write`, decided on the value the implementation's cache holds
+    let cvalid : Option Bool := match cdt, icval with
+      | some c, some (.ok cv) => some (validB c cv)
+      | _, _ => none
     let b64ok := match v with
       | .bytes b => Base64.decode? (Base64.encode b) == some b
       | _ => true
     return Json.mkObj [("wf", .bool dt.wfB), ("valid", .bool valid), ("canon", .bool canon), ("complete", .bool complete),
-      ("fmtlaw", .bool fmtlaw), ("model", Json.mkObj [
+      ("fmtlaw", .bool fmtlaw), ("negzero", .bool negzero), ("cvalid", match cvalid with | some b => .bool b | none => .null), ("limits", .bool (limitsB dt)), ("model", Json.mkObj [
         ("exp", outToJson jvalToJson (some mexp)), ("node", outToJson pvalToJson mnode),
         ("client", outToJson pvalToJson mclient), ("cdt", jopt dtypeToJson cdt),
         ("text", outToJson textToJson (some mtext)), ("back", outToJson pvalToJson mback),
         ("again", outToJson textToJson magain), ("cval", outToJson pvalToJson mcval),
         ("ctext", outToJson textToJson mctext), ("cback", outToJson pvalToJson mcback),
         ("cagain", outToJson textToJson mcagain), ("sent", outToJson jvalToJson msent),
-        ("cnode", outToJson pvalToJson mcnode)]),
+        ("cnode", outToJson pvalToJson mcnode), ("vsent", outToJson jvalToJson mvsent),
+        ("vnode", outToJson pvalToJson mvnode)]),
       ("judge", jstrs verdict), ("b64", .bool b64ok)]
   | _ => throw s!"C02: unknown verb {k}"
 
